@@ -30,6 +30,7 @@ independent implementation of ninja's lexer/evaluation rules (the MODEL) and
 
 import collections
 import copy
+import functools
 import itertools
 import logging
 import os
@@ -118,11 +119,15 @@ def family_graphs(sizes=(5, 6)):
 
 
 def specs_for(tier):
-  """The complete list of project specs (n, edges, kinds, root scheme, out scheme, input order) of a tier."""
+  """The complete list of project specs (n, edges, kinds, root scheme, out scheme, request mode) of a tier.
+
+  Request mode: which (ordered) lists of requested files are run for the project - every non-empty subset
+  listed ascending ("asc"), descending ("desc"), or every permutation of every non-empty subset ("perms").
+  """
   specs = []
   fam = collections.OrderedDict()
 
-  def add(label, n, graphs, kindvecs, dirpairs, orders=("set",)):
+  def add(label, n, graphs, kindvecs, dirpairs, orders=("asc",)):
     c = 0
     for es in graphs:
       for kv in kindvecs:
@@ -136,8 +141,8 @@ def specs_for(tier):
   cross = [(a, b) for a in SCHEMES for b in SCHEMES]
   if tier == "quick":
     add("n=1 x kinds x 25 dir pairs", 1, list(all_digraphs(1)), list(KINDS), cross)
-    add("n=2 x all 4 digraphs x kinds^2 x dirs(all,all)", 2, list(all_digraphs(2)),
-        list(itertools.product(KINDS, repeat=2)), [("all", "all")])
+    add("n=2 x all 4 digraphs x kinds^2 x dirs(all,all) x all request permutations", 2, list(all_digraphs(2)),
+        list(itertools.product(KINDS, repeat=2)), [("all", "all")], ("perms",))
     add("n=2 x all 4 digraphs x LL x 24 other dir pairs", 2, list(all_digraphs(2)),
         ["LL"], [d for d in cross if d != ("all", "all")])
     add("n=3 x all 64 digraphs x {L,P,S}^3 x dirs(all,all)", 3, list(all_digraphs(3)),
@@ -146,30 +151,50 @@ def specs_for(tier):
         ["BBB", "XXX"], [("all", "all")])
     add("n=3 x all 64 digraphs x LLL x 4 other diagonal dir schemes", 3, list(all_digraphs(3)),
         ["LLL"], [d for d in diag if d[0] != "all"])
-    add("n=3 x all 64 digraphs x LLL x dirs(all,all) x requested files listed ascending / descending", 3,
-        list(all_digraphs(3)), ["LLL"], [("all", "all")], ("asc", "desc"))
+    add("n=3 x all 64 digraphs x LLL x dirs(all,all) x all request permutations", 3,
+        list(all_digraphs(3)), ["LLL"], [("all", "all")], ("perms",))
   else:
     add("n=1 x kinds x 25 dir pairs", 1, list(all_digraphs(1)), list(KINDS), cross)
-    add("n=2 x all 4 digraphs x kinds^2 x 25 dir pairs", 2, list(all_digraphs(2)),
-        list(itertools.product(KINDS, repeat=2)), cross)
+    add("n=2 x all 4 digraphs x kinds^2 x 25 dir pairs x all request permutations", 2, list(all_digraphs(2)),
+        list(itertools.product(KINDS, repeat=2)), cross, ("perms",))
     add("n=3 x all 64 digraphs x kinds^3 (125) x dirs(all,all)", 3, list(all_digraphs(3)),
         list(itertools.product(KINDS, repeat=3)), [("all", "all")])
     add("n=3 x all 64 digraphs x LLL x 24 other dir pairs", 3, list(all_digraphs(3)),
         ["LLL"], [d for d in cross if d != ("all", "all")])
-    add("n=3 x all 64 digraphs x {L,S}^3 x dirs(all,all) x requested files listed ascending / descending", 3,
-        list(all_digraphs(3)), list(itertools.product("LS", repeat=3)), [("all", "all")], ("asc", "desc"))
-    add("n=4 x all 4096 digraphs x {LLLL, SPLS} x dirs(all,all)", 4, list(all_digraphs(4)),
-        ["LLLL", "SPLS"], [("all", "all")])
+    add("n=3 x all 64 digraphs x {L,S}^3 x dirs(all,all) x all request permutations", 3,
+        list(all_digraphs(3)), list(itertools.product("LS", repeat=3)), [("all", "all")], ("perms",))
+    add("n=4 x all 4096 digraphs x LLLL x dirs(all,all) x requests ascending and descending", 4,
+        list(all_digraphs(4)), ["LLLL"], [("all", "all")], ("asc", "desc"))
+    add("n=4 x all 4096 digraphs x SPLS x dirs(all,all)", 4, list(all_digraphs(4)),
+        ["SPLS"], [("all", "all")])
     for name, n, es in family_graphs((5, 6)):
       add("ring / ring+tail / two rings / two rings sharing a module on 5-6 modules, both labellings "
-          "x {all L, LPSLPS, all S} x dirs(all,all)", n, [es],
-          ["L" * n, ("LPS" * 2)[:n], "S" * n], [("all", "all")])
+          "x {all L, LPSLPS, all S} x dirs(all,all) x requests ascending and descending", n, [es],
+          ["L" * n, ("LPS" * 2)[:n], "S" * n], [("all", "all")], ("asc", "desc"))
   return specs, fam
 
 
 def subsets(n):
   for mask in range(1, 1 << n):
     yield tuple(i for i in range(n) if mask >> i & 1)
+
+
+def requests(n, mode):
+  """The ordered lists of requested modules run for one project."""
+  for sub in subsets(n):
+    if mode == "asc":
+      yield sub
+    elif mode == "desc":
+      yield sub[::-1]
+    elif mode == "perms":
+      yield from itertools.permutations(sub)
+    else:
+      raise ValueError(mode)
+
+
+@functools.lru_cache(None)
+def n_requests(n, mode):
+  return sum(1 for _ in requests(n, mode))
 
 
 # --------------------------------------------------------------------------- project writer + oracle facts
@@ -180,7 +205,6 @@ class Project:
 
   def __init__(self, where, spec):
     n, edges, kinds, rs, os_ = spec[:5]
-    self.order = spec[5] if len(spec) > 5 else "set"
     self.spec = spec
     self.n = n
     self.edges = [tuple(e) for e in edges]
@@ -657,10 +681,9 @@ def generate_plan(w, proj, request, outdir):
   """main.py's pipeline from a populated config to setup_build().  Returns the runner."""
   conf = copy.copy(w["conf0"])      # = parser.config_from_defaults(), made once per process
   # main.py holds the inputs in a set, so the order in which importlab sees them is an accident of string
-  # hashing; "asc"/"desc" pin it (every consumer only iterates or calls set() on it)
-  conf.inputs = {proj.src[i] for i in request}
-  if proj.order != "set":
-    conf.inputs = sorted(conf.inputs, reverse=proj.order == "desc")
+  # hashing (it decides topological ties and therefore the shape of the plan); the harness pins it with a
+  # list, which every consumer only iterates or passes to set()
+  conf.inputs = [proj.src[i] for i in request]
   conf.output = outdir
   conf.pythonpath = w["environment"].compute_pythonpath(conf.inputs)
   # importlab.fs.OSFileSystem.__init__ calls tempfile.mkstemp() and drops the descriptor and the file:
@@ -995,9 +1018,9 @@ def _owner_by_prefix(batch, text):
 
 
 def case_of(spec, request):
-  n, edges, kinds, rs, os_, order = spec
+  n, edges, kinds, rs, os_ = spec[:5]
   return {"n": n, "edges": [list(e) for e in edges], "kinds": kinds, "root": rs, "out": os_,
-          "order": order, "request": list(request)}
+          "request": list(request)}     # request = the files asked for, in the order they are handed over
 
 
 def _scrub(msg, scratch):
@@ -1018,7 +1041,7 @@ def work(job):
       pdir = os.path.join(scratch, "p%d" % si)
       proj = Project(pdir, spec)
       stats["projects"] += 1
-      for ri, request in enumerate(subsets(proj.n)):
+      for ri, request in enumerate(requests(proj.n, spec[5])):
         outdir = os.path.join(pdir, "o%d" % ri, proj.outname)
         bad, plan = check_plan(w, proj, request, outdir, stats)
         stats["plans"] += 1
@@ -1047,8 +1070,7 @@ def check_case(case, base):
   """One plan, in this process, with the ninja cross-check.  Returns list of messages."""
   w = _worker_init(base)
   scratch = tempfile.mkdtemp(prefix="one", dir=base)
-  spec = (case["n"], tuple(tuple(e) for e in case["edges"]), case["kinds"], case["root"], case["out"],
-          case.get("order", "set"))
+  spec = (case["n"], tuple(tuple(e) for e in case["edges"]), case["kinds"], case["root"], case["out"], "asc")
   request = tuple(case["request"])
   stats = collections.Counter()
   pdir = os.path.join(scratch, "p0")
@@ -1073,7 +1095,7 @@ def make_jobs(base, specs, tier):
   target = PLANS_PER_JOB[tier]
   for sp in specs:
     cur.append(sp)
-    cnt += (1 << sp[0]) - 1
+    cnt += n_requests(sp[0], sp[5])
     if cnt >= target:
       jobs.append(cur)
       cur, cnt = [], 0
@@ -1115,9 +1137,9 @@ def run(rep, tier, seed):
         rep.violation(vrun.jkey(case), msgs[0], dict(case, all=msgs))
     # two verbatim samples, regenerated here
     for case in ({"n": 3, "edges": [[0, 1], [1, 0], [2, 0]], "kinds": "LPS", "root": "all", "out": "all",
-                  "order": "set", "request": [2]},
+                  "request": [2]},
                  {"n": 2, "edges": [[0, 1]], "kinds": "LL", "root": "space", "out": "dollar",
-                  "order": "desc", "request": [0, 1]}):
+                  "request": [1, 0]}):
       bad, st, plan, outdir = check_case(case, base)
       if plan is not None:
         with open(os.path.join(outdir, "build.ninja")) as f:
@@ -1160,7 +1182,9 @@ def run(rep, tier, seed):
       "a step 'reads' exactly the stubs named in its imports file (pytype-single resolves imports only through it)",
       "the imports-map key of a module is its path below the project root without extension",
       "CLI/config parsing (space-separated inputs, ':'-separated pythonpath) is bypassed: the Config object is "
-      "populated directly, pythonpath via tools.environment.compute_pythonpath as main.py does by default",
+      "populated directly, pythonpath via tools.environment.compute_pythonpath as main.py does by default; "
+      "conf.inputs is an ordered list (main.py: a set, whose iteration order is arbitrary) so that runs are "
+      "reproducible - orders covered: see bounds",
       "the property is checked at the level of the plan (paths and variable values as ninja evaluates them); how "
       "/bin/sh later tokenises a command line is not: ninja quotes $in and $out, but the rule expands "
       "`--imports_info $imports` unquoted, so an output directory containing a space or '$' reaches pytype-single "
@@ -1176,7 +1200,6 @@ def replay(case):
   old_tmp = tempfile.tempdir
   try:
     c = {k: case[k] for k in ("n", "edges", "kinds", "root", "out", "request")}
-    c["order"] = case.get("order", "set")
     bad, _, _, _ = check_case(c, base)
   finally:
     tempfile.tempdir = old_tmp
